@@ -995,6 +995,10 @@ func genStreamBase(g *Gen, prop string) *StreamScenario {
 		}
 	} else {
 		s.First = `{"method":"a.b.Up","upgrade":true,"parameters":{"x":1}}`
+		if g.IntN(6) == 0 {
+			// nobody waits for a reply to the upgrade call: the payload is the handler's all the same
+			s.First = `{"method":"a.b.Up","upgrade":true,"oneway":true,"parameters":{"x":1}}`
+		}
 	}
 	return s
 }
